@@ -36,6 +36,7 @@ import (
 	"golang.org/x/crypto/pbkdf2"
 	"google.golang.org/protobuf/encoding/protowire"
 
+	"github.com/hyperledger/aries-framework-go/component/kmscrypto/crypto/tinkcrypto"
 	compkms "github.com/hyperledger/aries-framework-go/component/kmscrypto/kms"
 	"github.com/hyperledger/aries-framework-go/component/kmscrypto/kms/localkms"
 	"github.com/hyperledger/aries-framework-go/component/kmscrypto/secretlock/local"
@@ -132,6 +133,7 @@ type world struct {
 	protected  string // what is kept at rest instead of the master key (hkdf/pbkdf2)
 	lock       *recLock
 	kms        *localkms.LocalKMS
+	crypto     *tinkcrypto.Crypto
 
 	matAtom map[string]int
 	dekAtom map[string]int
@@ -169,9 +171,65 @@ func masterLock(cfg, pass string, salt []byte) (secretlock.Service, error) {
 }
 
 // newLock builds the secret lock the way an application does for this configuration.
+func isRawCfg(cfg string) bool { return strings.HasPrefix(cfg, "raw") }
+
+// newLock builds the secret lock the way an application does for this configuration: every way local.NewService
+// accepts a master key.
+//
+//	raw        unprotected, base64URL text from a reader
+//	rawbin     unprotected, the raw key bytes from a reader
+//	rawfile    unprotected, raw key bytes in a file read through local.MasterKeyFromPath
+//	rawfileb64 unprotected, base64URL text in a file read through local.MasterKeyFromPath
+//	rawenv     unprotected, base64URL text in an environment variable read through local.MasterKeyFromEnv
+//	hkdf / pbkdf2  protected by the passphrase-derived master lock
 func newLock(cfg string, masterKey []byte, protected, pass string, salt []byte) (secretlock.Service, error) {
-	if cfg == "raw" {
-		return local.NewService(bytes.NewReader([]byte(base64.URLEncoding.EncodeToString(masterKey))), nil)
+	b64 := []byte(base64.URLEncoding.EncodeToString(masterKey))
+
+	switch cfg {
+	case "raw":
+		return local.NewService(bytes.NewReader(b64), nil)
+	case "rawbin":
+		return local.NewService(bytes.NewReader(append([]byte(nil), masterKey...)), nil)
+	case "rawfile", "rawfileb64":
+		dir, err := os.MkdirTemp("", "verif-c05-")
+		if err != nil {
+			return nil, err
+		}
+
+		defer os.RemoveAll(dir)
+
+		content := masterKey
+		if cfg == "rawfileb64" {
+			content = b64
+		}
+
+		path := filepath.Join(dir, "master.key")
+		if err = os.WriteFile(path, content, 0o600); err != nil {
+			return nil, err
+		}
+
+		rd, err := local.MasterKeyFromPath(path)
+		if err != nil {
+			return nil, err
+		}
+
+		return local.NewService(rd, nil)
+	case "rawenv":
+		const prefix = "VERIF_C05_MK_"
+
+		name := prefix + strings.ReplaceAll(keyURI, "/", "_")
+		if err := os.Setenv(name, string(b64)); err != nil {
+			return nil, err
+		}
+
+		defer os.Unsetenv(name)
+
+		rd, err := local.MasterKeyFromEnv(prefix, keyURI)
+		if err != nil {
+			return nil, err
+		}
+
+		return local.NewService(rd, nil)
 	}
 
 	ml, err := masterLock(cfg, pass, salt)
@@ -187,10 +245,23 @@ func newWorld(cfg string, r *hx.Rng) *world {
 	w.raw = mem.NewProvider()
 	w.rec = hx.NewRecProvider(w.raw)
 	w.masterKey = r.Bytes(32)
+
+	if isRawCfg(cfg) {
+		// AES-128/192/256 master keys; a binary key must not happen to be base64URL text
+		w.masterKey = r.Bytes([]int{32, 32, 16, 24}[r.Intn(4)])
+		for {
+			if _, e := base64.URLEncoding.DecodeString(string(w.masterKey)); e != nil {
+				break
+			}
+
+			w.masterKey = r.Bytes(len(w.masterKey))
+		}
+	}
+
 	w.passphrase = "pass-" + hex.EncodeToString(r.Bytes(12))
 	w.salt = r.Bytes(16)
 
-	if cfg != "raw" {
+	if !isRawCfg(cfg) {
 		ml, err := masterLock(cfg, w.passphrase, w.salt)
 		if err != nil {
 			panic(err)
@@ -214,6 +285,11 @@ func newWorld(cfg string, r *hx.Rng) *world {
 	}
 
 	w.lock = &recLock{inner: inner}
+
+	if w.crypto, err = tinkcrypto.New(); err != nil {
+		panic(err)
+	}
+
 	w.kms = w.open(w.lock, true)
 
 	return w
@@ -606,6 +682,22 @@ func (w *world) apply(pos int, op Op, r *hx.Rng) Obs {
 	return obs
 }
 
+// use exercises a handle with the crypto service (whatever primitive it supports), as an application would.
+func (w *world) use(h interface{}) {
+	c := w.crypto
+	msg := []byte("verif c05")
+
+	if _, e := c.Sign(msg, h); e == nil {
+		return
+	}
+
+	if _, _, e := c.Encrypt(msg, nil, h); e == nil {
+		return
+	}
+
+	_, _ = c.ComputeMAC(msg, h)
+}
+
 // ---------- scanning ----------
 
 func encodings(b []byte) map[string][]byte {
@@ -751,7 +843,7 @@ func runHistory(kind, cfg string, ops []Op, r *hx.Rng, tr *hx.Trace) {
 	// the protected master key, rebuilt: it must open under the harness's own derivation from the passphrase
 	protT := "[]"
 
-	if cfg != "raw" {
+	if !isRawCfg(cfg) {
 		var lk []byte
 
 		label := 4
@@ -781,37 +873,72 @@ func runHistory(kind, cfg string, ops []Op, r *hx.Rng, tr *hx.Trace) {
 	// (iv) a key manager opened over the same store with another master key reads nothing;
 	//      the right one reads every live id; a wrong passphrase does not even open the lock
 	wrongReads, wrongUnlocks := false, false
-	other := append([]byte(nil), w.masterKey...)
-	other[7] ^= 0x40
 
-	prot2 := ""
-
-	if cfg != "raw" {
-		ml, _ := masterLock(cfg, w.passphrase, w.salt)
-		if enc, err := ml.Encrypt("", &secretlock.EncryptRequest{Plaintext: string(other)}); err == nil {
-			prot2 = enc.Ciphertext
+	// first the rightful key manager (same process) reads and uses every id: whatever it may cache must not serve others
+	for _, is := range w.issued {
+		if h, e := w.kms.Get(is.id); e == nil {
+			_, _, _ = w.kms.ExportPubKeyBytes(is.id)
+			w.use(h)
 		}
 	}
 
-	if wl, err := newLock(cfg, other, prot2, w.passphrase, w.salt); err == nil {
-		k2 := w.open(wl, false)
+	flipped := append([]byte(nil), w.masterKey...)
+	flipped[7] ^= 0x40
+	probes := []struct {
+		what string
+		key  []byte
+	}{
+		{"a master key differing in one bit", flipped},
+		{"the all-zero master key", make([]byte, len(w.masterKey))},
+		{"another random master key", r.Fork(424242).Bytes(len(w.masterKey))},
+	}
 
-		for _, is := range w.issued {
-			if _, e := k2.Get(is.id); e == nil {
-				wrongReads = true
+	for _, pr := range probes {
+		deliveries := []string{cfg}
+		if isRawCfg(cfg) && cfg != "rawbin" {
+			deliveries = append(deliveries, "rawbin")
+		}
 
-				fail("wrong-master-key:reads", fmt.Sprintf("Get(%q) succeeded in a key manager opened with another master key", is.id))
+		for _, dl := range deliveries {
+			prot2 := ""
+
+			if !isRawCfg(dl) {
+				ml, _ := masterLock(dl, w.passphrase, w.salt)
+				if enc, err := ml.Encrypt("", &secretlock.EncryptRequest{Plaintext: string(pr.key)}); err == nil {
+					prot2 = enc.Ciphertext
+				}
 			}
 
-			if _, _, e := k2.ExportPubKeyBytes(is.id); e == nil {
-				wrongReads = true
+			wl, err := newLock(dl, pr.key, prot2, w.passphrase, w.salt)
+			if err != nil {
+				continue
+			}
 
-				fail("wrong-master-key:exports", fmt.Sprintf("ExportPubKeyBytes(%q) succeeded with another master key", is.id))
+			k2 := w.open(wl, false)
+
+			for _, is := range w.issued {
+				if _, e := k2.Get(is.id); e == nil {
+					wrongReads = true
+
+					fail("wrong-master-key:reads", fmt.Sprintf("Get(%q) succeeded in a key manager opened with %s (%s)", is.id, pr.what, dl))
+				}
+
+				if _, _, e := k2.ExportPubKeyBytes(is.id); e == nil {
+					wrongReads = true
+
+					fail("wrong-master-key:exports", fmt.Sprintf("ExportPubKeyBytes(%q) succeeded with %s (%s)", is.id, pr.what, dl))
+				}
+
+				if _, _, e := k2.Rotate(kmsapi.KeyType(is.kt), is.id); e == nil {
+					wrongReads = true
+
+					fail("wrong-master-key:rotates", fmt.Sprintf("Rotate(%q) succeeded with %s (%s)", is.id, pr.what, dl))
+				}
 			}
 		}
 	}
 
-	if cfg != "raw" {
+	if !isRawCfg(cfg) {
 		if _, err := newLock(cfg, nil, w.protected, w.passphrase+"x", w.salt); err == nil {
 			wrongUnlocks = true
 
@@ -855,7 +982,10 @@ func runHistory(kind, cfg string, ops []Op, r *hx.Rng, tr *hx.Trace) {
 		}
 	}
 
-	cfgT := map[string]string{"raw": "LRaw", "hkdf": "LHkdf", "pbkdf2": "LPbkdf2"}[cfg]
+	cfgT := map[string]string{"hkdf": "LHkdf", "pbkdf2": "LPbkdf2"}[cfg]
+	if isRawCfg(cfg) {
+		cfgT = "LRaw"
+	}
 	rec.Coq = fmt.Sprintf("{| c_cfg := %s; c_ops := %s; c_obs := %s; c_protected := %s; c_wrong_master_reads := %s; c_wrong_pass_unlocks := %s |}",
 		cfgT, hx.CoqList(coqOps), hx.CoqList(coqObs), protT, hx.CoqBool(wrongReads), hx.CoqBool(wrongUnlocks))
 	rec.Observed = map[string]interface{}{"ops": obs, "secrets_tracked": len(w.secrets), "haystacks": len(w.hay)}
@@ -960,7 +1090,7 @@ func main() {
 	defer tr.Close()
 
 	rng := hx.NewRng(args.Seed)
-	cfgs := []string{"raw", "hkdf", "pbkdf2"}
+	cfgs := []string{"raw", "hkdf", "pbkdf2", "rawbin", "rawfile", "rawfileb64", "rawenv"}
 
 	if args.Replay != "" {
 		b, err := os.ReadFile(args.Replay)
@@ -1041,6 +1171,6 @@ func main() {
 
 	for i := 0; i < nRandom; i++ {
 		r := next()
-		runHistory("random", cfgs[i%3], randomHistory(r, 2+r.Intn(11)), r, tr)
+		runHistory("random", cfgs[i%len(cfgs)], randomHistory(r, 2+r.Intn(11)), r, tr)
 	}
 }
